@@ -27,41 +27,34 @@ Theorem C03_nt_literal_scan : forall s rest,
 Proof. intros. rewrite nt_encode_body_flat. apply scan_body_encode. Qed.
 Print Assumptions C03_nt_literal_scan.
 
-(* K1, one triple.  FULL STATEMENT (does not hold, see C03_nt_roundtrip_refuted):
-     forall t, wf_triple t = true -> pystr_triple t = true ->
-       exists s, nt_row t = Some s /\ parse_doc s = Some [t]
-   where wf_triple is what rdflib accepts when writing (URIRef.n3's _is_valid_uri, the language-tag pattern,
-   labels of the shape the reader's r_nodeid takes) plus "the IRI has a scheme".  The proof forces one more
-   hypothesis, triple_readable: no character of Python's \s class after the scheme of an IRI and no CR/LF
-   before it (finding F15b).  With it: *)
-Theorem C03_nt_roundtrip_partial : forall t,
-  wf_triple t = true -> pystr_triple t = true -> triple_readable t = true ->
-  exists s, nt_row t = Some s /\ parse_doc s = Some [t].
-Proof.
-  intros t H1 H2 H3. apply nt_roundtrip_row. unfold good_triple. now rewrite H1, H2, H3.
-Qed.
-Print Assumptions C03_nt_roundtrip_partial.
+(* K1, one triple, FULL STATEMENT.  wf_triple is what rdflib accepts when writing (URIRef.n3's _is_valid_uri, the
+   language-tag pattern, labels of the shape the reader's r_nodeid takes) plus "the IRI has a scheme"; pystr_triple says the
+   strings are Python strings.  Both readers: unbounded buffer and the code's 2048-character buffer (any chunk size).
+   Until fix commit 4d2427e4 this needed the extra hypothesis triple_readable (finding F15b, now repaired): *)
+Theorem C03_nt_roundtrip : forall n, (1 <= n)%nat -> forall t,
+  wf_triple t = true -> pystr_triple t = true ->
+  exists s, nt_row t = Some s /\ parse_doc s = Some [t] /\ parse_doc_buf n s = Some [t].
+Proof. exact nt_roundtrip_full. Qed.
+Print Assumptions C03_nt_roundtrip.
 
-Theorem C03_nt_roundtrip_refuted : exists t,
-  wf_triple t = true /\ pystr_triple t = true /\ nt_kf (NtTriple t) = 1 /\
-  exists s, nt_row t = Some s /\ parse_doc s = None /\ parse_doc_buf bufsiz s = None.
-Proof. exists w_nbsp_triple. exact nt_roundtrip_refuted_witness. Qed.
-Print Assumptions C03_nt_roundtrip_refuted.
+(* K1, documents of ANY length: the rows of any list of such triples are read back as that list, in order, by the
+   reader as written (readline refills a buffer bufsiz = 2048 characters at a time; a row never contains CR or LF, so
+   the only artefact of buffering - a CRLF cut in two - cannot arise) *)
+Theorem C03_nt_roundtrip_doc : forall n, (1 <= n)%nat -> forall ts, forallb full_triple ts = true ->
+  exists s, nt_doc ts = Some s /\ parse_doc s = Some ts /\ parse_doc_buf n s = Some ts.
+Proof. exact nt_roundtrip_doc_full. Qed.
+Print Assumptions C03_nt_roundtrip_doc.
 
-(* K1, documents: the rows of any list of such triples are read back as that list, in order (rows never
-   contain a raw CR or LF, so the line splitter cuts exactly between them). *)
-Theorem C03_nt_roundtrip_doc_partial : forall ts, forallb good_triple ts = true ->
-  exists s, nt_doc ts = Some s /\ parse_doc s = Some ts.
-Proof. exact nt_roundtrip_doc. Qed.
-Print Assumptions C03_nt_roundtrip_doc_partial.
+(* the hypothesis is gone because the reader's IRI class is now inside the writer's: *)
+Theorem C03_nt_writer_iris_readable : forall t, wf_triple t = true -> triple_readable t = true.
+Proof. exact wf_triple_readable. Qed.
+Print Assumptions C03_nt_writer_iris_readable.
 
-(* K1, the reader as written: readline refills a buffer bufsiz = 2048 characters at a time.  For every chunk size
-   n >= 1 and documents of ANY length the rows of such triples are read back as that list (a row never contains
-   CR or LF, so the only artefact of buffering - a CRLF cut in two - cannot arise). *)
-Theorem C03_nt_roundtrip_doc_buffered_partial : forall n, (1 <= n)%nat -> forall ts, forallb good_triple ts = true ->
-  exists s, nt_doc ts = Some s /\ parse_doc_buf n s = Some ts.
-Proof. exact nt_roundtrip_doc_buffered. Qed.
-Print Assumptions C03_nt_roundtrip_doc_buffered_partial.
+(* historical (before 4d2427e4): a class containing all of str.isspace refuses U+00A0, which the writer accepts *)
+Theorem C03_nt_historical_class_refuted :
+  exists c, is_space c = true /\ mem c invalid_uri = false /\ mem c uriref_refused = false.
+Proof. exact historical_class_refuted. Qed.
+Print Assumptions C03_nt_historical_class_refuted.
 
 (* the fuel in the definition of the buffered reader never runs out: parse_doc_buf is a total model *)
 Theorem C03_nt_buffered_reader_total : forall n s, (1 <= n)%nat -> read_all n (S (S (length s))) [] s <> None.
@@ -69,9 +62,9 @@ Proof. exact parse_doc_buf_fuel. Qed.
 Print Assumptions C03_nt_buffered_reader_total.
 
 (* K1: what the correspondence check evaluates on the implementation's answers holds of the model. *)
-Theorem C03_nt_spec_model_partial : forall c, nt_wf c = true -> nt_kf c = 0 -> nt_spec c (nt_model c) = true.
-Proof. exact nt_spec_model. Qed.
-Print Assumptions C03_nt_spec_model_partial.
+Theorem C03_nt_spec_model : forall c, nt_wf c = true -> nt_spec c (nt_model c) = true.
+Proof. exact nt_spec_model_full. Qed.
+Print Assumptions C03_nt_spec_model.
 
 Theorem C03_nt_spec_reading : forall t text back,
   nt_spec (NtTriple t) (ObsTriple text back) = true <->
@@ -162,7 +155,7 @@ Print Assumptions C03_tables_agree.
 Example C03_nonvacuous :
   let t : triple := (Bnode [98; 49; 46; 120], [104; 58; 112],
                      OLit [34; 92; 13; 10; 128512; 117] (Some [101; 110; 45; 85; 83]) None) in
-  good_triple t = true /\ nt_kf (NtTriple t) = 0 /\
+  full_triple t = true /\ nt_kf (NtTriple t) = 0 /\
   nt_model (NtTriple t) = ObsTriple (nt_row t) (Some [t]) /\ nt_row t <> None
   /\ ttl_read (ttl_quote_encode [34; 92; 13; 128512]) = Some [34; 92; 13; 128512]
   /\ ttl_read (ttl_quote_encode [92; 13; 10; 128512]) = Some [92; 13; 10; 128512].
